@@ -435,7 +435,19 @@ struct DWorld : World {
 				outcome = 1;
 				break;
 			}
-			case OP_FINI: {
+			case OP_FINI: if ((op.c % 9) == 7 && !live.empty() && *reinterpret_cast<buffer **>(D) && (*reinterpret_cast<buffer **>(D))->_content_traits == mpt_command_traits()) {
+				// (only a table of command elements: one that a reservation created as a plain byte buffer has no finaliser the container could run)
+				// the table is emptied through its container interface (resize to nothing): every registration ends, the fallback handler and the
+				// dispatcher itself stay; what an end-of-life notification emits must not reach a handler that was already told
+				std::vector<Rec *> were; for (auto &kv : live) were.push_back(kv.second);
+				bool ok; { Sut s; ok = D->resize(0); }
+				live.clear();
+				log.ev("RESIZE(0) of the table (%zu registrations) -> %d", were.size(), (int) ok);
+				if (!ok) fail("refused-valid", "emptying the dispatcher's table was refused");
+				for (Rec *r : were) expect_eol(r, "table emptied");
+				st.hit("probe:table_emptied_by_resize"); outcome = 1;
+				break;
+			} else {
 				std::vector<Rec *> were; for (auto &kv : live) were.push_back(kv.second);
 				Rec *fb = fallback;
 				{ Sut s; mpt_dispatch_fini(D); }
